@@ -227,7 +227,7 @@ def IType.isRequest : IType → Bool | .interchain => true | _ => false
 def IType.isResponse : IType → Bool
   | .receiptSuccess | .receiptFailure | .receiptRollback => true | _ => false
 
-inductive ProofKind | ok | none | bad
+inductive ProofKind | ok | none | bad | plainFalse
 deriving Repr, DecidableEq
 
 structure Ibtp where
@@ -239,7 +239,7 @@ structure Ibtp where
   group : Option (List (SvcId × Nat))
 deriving Repr
 
-inductive Arg | s (v : String) | u (v : Nat) | b (v : Bool) | i (v : Int) | svc (v : SvcId) | tid (v : TxId) | badnum
+inductive Arg | s (v : String) | u (v : Nat) | b (v : Bool) | i (v : Int) | svc (v : SvcId) | tid (v : TxId) | badnum | opq
 deriving Repr, DecidableEq
 
 inductive Tx
@@ -672,17 +672,34 @@ def proofVerdict (cfg : Cfg) (i : Ibtp) (p : ProofKind) : Option String :=
   match p with
   | .none => some "proof-empty"
   | .bad => some "proof-hash"
+  | .plainFalse => some "proof-rule"     -- the bound rule answers plain false (no error)
   | .ok =>
+    -- `verifyProof` parses the origin ignoring the parse error: a malformed id, a foreign BitXHub or an
+    -- unknown chain all end in "get appchain ... failed", wrapped as a proof error like a rule error
     match (if i.typ.isRequest then i.frm else i.to) with
-    | none => some "other"
+    | none => some "proof-rule"
     | some s =>
-      if s.bxh ≠ cfg.bxh then some "other"
+      if s.bxh ≠ cfg.bxh then some "proof-rule"
       else match cfg.rule s.chain with
-        | none => some "other"
+        | none => some "proof-rule"
         | some true => none
         | some false => some "proof-rule"
 
 -- ------------------------------------------------------------------------------------ one tx
+
+def Arg.isStr : Arg → Bool | .s _ | .svc _ | .tid _ => true | _ => false
+def Arg.isU : Arg → Bool | .u v => v < 2 ^ 64 | _ => false
+def Arg.isB : Arg → Bool | .b _ => true | _ => false
+def Arg.isI32 : Arg → Bool | .i v => -(2 ^ 31 : Int) ≤ v ∧ v < 2 ^ 31 | _ => false
+
+/-- argument vectors that fit the transaction manager's internal entry points -/
+def txmgrWellTyped (method : String) (args : List Arg) : Bool :=
+  match args with
+  | [a, t, f] => method == "Begin" && a.isStr && t.isU && f.isB
+  | [a, r] => method == "Report" && a.isStr && r.isI32
+  | [g, a, t, f, c] => method == "BeginMultiTXs" && g.isStr && a.isStr && t.isU && f.isB && c.isU
+  | [a, t, p, f] => method == "BeginInterBitXHub" && a.isStr && t.isU && (p == .opq) && f.isB
+  | _ => false
 
 /-- BVM calls covered by the model (everything else is outside the exec op language) -/
 def applyBvm (env : Env) (l : Led) (contract method : String) (args : List Arg) : Except String (Led × String) :=
@@ -706,8 +723,8 @@ def applyBvm (env : Env) (l : Led) (contract method : String) (args : List Arg) 
     | _ => .error "unmodelled"
   else if contract == "txmgr" && (method == "Begin" || method == "Report" || method == "BeginMultiTXs" || method == "BeginInterBitXHub") then
     -- direct call: CurrentCaller is the external account, not the interchain contract.
-    -- (wrong argument vectors fail earlier in reflection; the generator sends well-typed ones)
-    .error "1100001"
+    -- (argument vectors that do not fit the signature fail earlier, in reflection: outside the model)
+    if txmgrWellTyped method args then .error "1100001" else .error "unmodelled"
   else .error "unmodelled"
 
 structure TxOut where
